@@ -2,9 +2,11 @@
 (* C38 monitors.  Events (field `op` selects the shape):
    apy         [start, now, g, v]                       one call of compute_time_weighted_apy
    reward_pair [d, b, a1, c1, ok1, r1, a2, c2, ok2, r2] two calls of calculate_gt_reward_amount
+   reward_pair_wide  as reward_pair at the type limits: b, a1, c1, a2, c2 (u128 arguments: apy per second,
+               stake values, cost integrals) and r1, r2 (u64 results) are BigNum records [s, neg, l]
    unstake     [amount, value, claim, minv, vault, u, ok, full, transfer, amount2, value2]
                one unstake (position before, request, outcome) *)
-EXTENDS Apy
+EXTENDS Apy, BigNum
 
 (* the time-weighted APY is the per-second average of the weekly buckets (elapsed time > 0) *)
 MonAvg(e) == e.op = "apy" /\ e.now > e.start => e.v = AvgDef(e.now - e.start, e.g)
@@ -12,6 +14,10 @@ MonAvg(e) == e.op = "apy" /\ e.now > e.start => e.v = AvgDef(e.now - e.start, e.
 (* rewards never decrease with a larger stake value or a longer cost integral *)
 MonRewardMono(e) ==
   e.op = "reward_pair" /\ e.ok1 /\ e.ok2 /\ e.a1 <= e.a2 /\ e.c1 <= e.c2 => e.r1 <= e.r2
+
+(* the same at the type limits (raw rewards around and far above 2^64), judged on the real values *)
+MonRewardMonoWide(e) ==
+  e.op = "reward_pair_wide" /\ e.ok1 /\ e.ok2 /\ BigLe(e.a1, e.a2) /\ BigLe(e.c1, e.c2) => BigLe(e.r1, e.r2)
 
 (* partial unstake: exactly the requested tokens, proportional rounded-down value *)
 MonPartial(e) ==
@@ -35,5 +41,8 @@ Conforms(e) ==
          LET x == Unstake([amount |-> e.amount, value |-> e.value], e.claim, e.minv, e.vault, e.u) IN
          e.ok = x.ok /\ (x.ok => e.full = x.full /\ e.transfer = x.transfer
                                    /\ e.amount2 = x.amount /\ e.value2 = x.value)
+    [] e.op = "reward_pair_wide" ->           \* well-formed numbers; a saturated result is u64::MAX
+         /\ IsBig(e.a1) /\ IsBig(e.a2) /\ IsBig(e.c1) /\ IsBig(e.c2) /\ IsBig(e.r1) /\ IsBig(e.r2)
+         /\ (e.sat1 => e.r1.s = "18446744073709551615") /\ (e.sat2 => e.r2.s = "18446744073709551615")
     [] OTHER -> FALSE
 =============================================================================
